@@ -29,7 +29,7 @@ def bounds(tier):
 
 def goals(tier):
     return ["closure-reached", "rc-of-past-the-end-location", "dihedral-2n-states", "negative-start-location-rotated",
-            "commutation-checked", "involution-checked"]
+            "commutation-checked", "involution-checked", "rc-with-non-default-flags"]
 
 
 def units(tier):
@@ -40,6 +40,10 @@ def units(tier):
         for s in range(nsl):
             us.append((n, s, nsl))
     return us
+
+
+FLAG_VARIANTS = [("id", True), ("name", True), ("description", True), ("annotations", True), ("letter_annotations", False),
+                 ("dbxrefs", True), ("features", True)]
 
 
 def ops(n):
@@ -129,6 +133,17 @@ def run_unit(unit, st, tier):
             except Exception as e:
                 st.violation("laws", "raises-" + type(e).__name__, dict(n=n, table_slice=[s, nsl], history=hist, op="laws", k=0),
                              "no exception", "{}: {}".format(type(e).__name__, e))
+            # reverse complement called with each optional flag switched away from its default (features stay requested)
+            for flag, val in FLAG_VARIANTS:
+                scn = dict(n=n, table_slice=[s, nsl], history=hist, op="rc-flag", k=0, flag=flag, value=val)
+                try:
+                    out = rec.reverse_complement(**{flag: val})
+                    compare(st, "flags", scn, obs_of(out, n), m_apply(m, "rc", 0, n))
+                except Exception as e:
+                    st.violation("flags", "raises-" + type(e).__name__, scn, "a record", "{}: {}".format(type(e).__name__, e))
+                st.scenario("rc-flag", None, nodes=0)
+                st.nontrivial += 1
+                st.goal("rc-with-non-default-flags")
             for (op, k) in ops(n):
                 scn = dict(n=n, table_slice=[s, nsl], history=hist, op=op, k=k)
                 if op == "rc" and any(pp[1] > n or pp[0] < 0 for f in rec.features for pp in snapshot.loc_parts(f.location)):
@@ -188,6 +203,12 @@ def replay(scn, sub, st):
         b = obs_of(rec.reverse_complement() << k, n)
         compare(st, "commutation", scn, a, b)
         compare(st, "commutation-model", scn, a, m_apply(m_apply(m, ">>", k, n), "rc", 0, n))
+    elif op == "rc-flag":
+        try:
+            out = rec.reverse_complement(**{scn["flag"]: scn["value"]})
+            compare(st, "flags", scn, obs_of(out, n), m_apply(m, "rc", 0, n))
+        except Exception as e:
+            st.violation(sub, "raises-" + type(e).__name__, scn, "a record", str(e))
     elif op == "laws":
         try:
             rec.reverse_complement().reverse_complement()
